@@ -1,0 +1,76 @@
+//! Seams for the external verification harness. Only compiled with the
+//! `verif_hooks` feature. With no chooser / observer installed on the calling
+//! thread every function here is the identity (or a no-op), so a hooks-on build
+//! behaves exactly like a hooks-off build until the harness installs something.
+use std::cell::{Cell, RefCell};
+
+type Chooser = Box<dyn FnMut(&'static str, usize) -> Vec<usize>>;
+type Observer = Box<dyn FnMut(&'static str, &[usize])>;
+
+thread_local! {
+    static CHOOSER: RefCell<Option<Chooser>> = RefCell::new(None);
+    static OBSERVER: RefCell<Option<Observer>> = RefCell::new(None);
+    static PARALLEL: Cell<Option<bool>> = Cell::new(None);
+}
+
+/// Installs (or removes) the order chooser of the calling thread. The chooser is
+/// given a site label and the number `n` of items and returns a permutation of `0..n`.
+pub fn set_chooser(c: Option<Chooser>) {
+    CHOOSER.with(|cell| *cell.borrow_mut() = c);
+}
+
+/// Installs (or removes) the observer of the calling thread.
+pub fn set_observer(o: Option<Observer>) {
+    OBSERVER.with(|cell| *cell.borrow_mut() = o);
+}
+
+/// Forces (Some) or stops forcing (None) the serial/parallel decision of the
+/// algorithms that have a parallel code path, for calls made on this thread.
+pub fn set_parallel_override(p: Option<bool>) {
+    PARALLEL.with(|cell| cell.set(p));
+}
+
+pub fn parallel_override() -> Option<bool> {
+    PARALLEL.with(|cell| cell.get())
+}
+
+/// Order seam. Without a chooser: returns `items` untouched (the real hash order).
+/// With a chooser: sorts `items` by `key` and applies the permutation the chooser
+/// returns for (site, items.len()).
+pub fn order_by_key<T, K: Ord>(site: &'static str, items: Vec<T>, key: impl Fn(&T) -> K) -> Vec<T> {
+    let has = CHOOSER.with(|cell| cell.borrow().is_some());
+    if !has {
+        return items;
+    }
+    let mut items = items;
+    items.sort_by(|a, b| key(a).cmp(&key(b)));
+    let n = items.len();
+    let perm = CHOOSER.with(|cell| (cell.borrow_mut().as_mut().unwrap())(site, n));
+    assert!(perm.len() == n, "verif chooser returned a permutation of the wrong length");
+    let mut slots: Vec<Option<T>> = items.into_iter().map(Some).collect();
+    perm.into_iter()
+        .map(|i| slots[i].take().expect("verif chooser returned a non-permutation"))
+        .collect()
+}
+
+/// Calls the observer of this thread, if any. The observer may unwind to stop a run.
+pub fn observe(site: &'static str, state: &[usize]) {
+    let taken = OBSERVER.with(|cell| cell.borrow_mut().take());
+    if let Some(mut o) = taken {
+        struct PutBack(Option<Observer>);
+        impl Drop for PutBack {
+            fn drop(&mut self) {
+                let o = self.0.take();
+                OBSERVER.with(|cell| {
+                    if cell.borrow().is_none() {
+                        *cell.borrow_mut() = o;
+                    }
+                });
+            }
+        }
+        let mut guard = PutBack(None);
+        o(site, state);
+        guard.0 = Some(o);
+        drop(guard);
+    }
+}
